@@ -94,6 +94,12 @@ type Prop struct {
 	RealOnly func(line string) bool
 }
 
+// PostHinter may be implemented by a Real whose last Exec resolved a nondeterministic choice of the
+// implementation (Go map iteration order, a random pick); see runCase.
+type PostHinter interface {
+	Hint() string
+}
+
 // Failure is one reported problem.
 type Failure struct {
 	Kind    string   `json:"kind"` // "monitor" | "correspondence"
@@ -205,6 +211,13 @@ func runCase(p *Prop, o *oracle.O, c Case) outcome {
 			ro, twinLine = h.ExecHint(ln)
 		} else {
 			ro = r.Exec(ln)
+			// a Real may resolve a nondeterministic choice of the implementation in its last Exec and
+			// report it afterwards (PostHinter): the hint is appended to the line the twin gets
+			if ph, ok := r.(PostHinter); ok {
+				if hint := ph.Hint(); hint != "" {
+					twinLine = ln + " " + hint
+				}
+			}
 		}
 		out.real = append(out.real, ro)
 		if o != nil && (p.RealOnly == nil || !p.RealOnly(ln)) {
